@@ -985,7 +985,7 @@ Definition execute (w : world) (r : tres) (msg : msgkind) : world * exitc :=
                   if o_set_head o && o_use_iw o then
                     if negb (o_allow_bad_head o)
                        && negb (match s_applied st1 with [] => true | _ => false end)
-                       && negb (Nat.eqb (s_head st1) (w_branch w1))
+                       && negb (Nat.eqb (s_top st1) (w_branch w1))
                     then inr (w_wt w1, w_unmerged w1, X2)
                     else
                       match checkout o stack_top trans_top (w_wt w1) (w_unmerged w1)
